@@ -1005,6 +1005,22 @@ class Prop:
                         [IPV4, 2, 1, 1, [], [pa]], [IPV4, 1, 1, 1, [], []]]
                 for n in range(1, len(hist) + 1):
                     add('cls_fixed_histories', [13, self.a_ctx(d), emax, self.A_RX, self.cid_for(d), IPV4, hist[:n], [1, 2]])
+        # ---- attribute kinds the decoder never produces (API-shaped): recognised codes carried as opaque
+        # blobs, a Val-typed AS_PATH (the unwrap panic); judged by the correspondence only
+        for code in (MED, LOCAL_PREF, AS_PATH, COMMUNITY, ORIGINATOR_ID, CLUSTER_LIST, AIGP):
+            for fl in (0xC0, 0x80):
+                for role in ROLES:
+                    add('cls_attr_kind_confusion', [3, self.a_ctx(role, 65100), [[ORIGIN, 0x40, 0, 0], [code, fl, 2, be32(LOCAL_AS)]]])
+        for role in ROLES:
+            add('cls_attr_kind_confusion', [3, self.a_ctx(role), [[ORIGIN, 0x40, 0, 0], [AS_PATH, 0x40, 0, 7]]])
+            add('cls_attr_kind_confusion', [2, [[AS_PATH, 0x40, 0, LOCAL_AS]], LOCAL_AS, 0])
+        # ---- destination and path ids at the ends of u32
+        for dest in (0, 1, 4294967295):
+            for pid in (0, 1, 4294967295):
+                pth = [pid, self.a_src(EBGP), [[0, [10, 0, 0, 9]]], [[ORIGIN, 0x40, 0, 0], self.a_path_attr([(2, [65002])])]]
+                for emax, em in ((1, [1, [dest]]), (1, [1, []]), (2, [2, [[dest, [pid]]]]), (2, [2, [[dest, [7]]]])):
+                    for rep in ([], [pid]):
+                        add('cls_id_boundaries', [9, x, emax, self.A_RX, [], [IPV4, dest, 1, 1, rep, [pth]], em, [dest, 1]])
         # ... the real-table scenario once more through the real TableManager (insert_route, the
         # neighbour's event channel, mark_llgr_stale)
         for cls_, case_ in list(out):
@@ -1071,6 +1087,7 @@ class Prop:
         for s, d, cid, confed in self.matrix():
             if confed == 0:
                 cases.append([8, s, d, cid])
+                self._cls[id(cases[-1])] = 'cls_role_matrix_predicates'
         # every (role, same AS / different AS) combination, also the inconsistent ones
         for r in ROLES:
             for rasn in (LOCAL_AS, 65002):
@@ -1106,6 +1123,7 @@ class Prop:
                          self.gen_attrs(rng, mode)]
                     ch = [rng.choice([IPV4, IPV4, IPV4, IPV6, FLOWSPEC4]), 1, 1, 1, [], [p]]
                     cases.append([9, x, emax, self.ADDR4[0], cid, ch, [0] if emax == 1 else [2, []], [1, 2]])
+                    self._cls[id(cases[-1])] = 'cls_role_matrix_process'
         # --- process_nlri_change: random histories (several paths, export map pre-state, echo collisions)
         for _ in range(500 * scale):
             cases.append(self.gen_process(rng))
